@@ -5,6 +5,12 @@
 pub use libc::*;
 
 pub unsafe fn io_uring_setup(entries: c_uint, p: *mut io_uring_params) -> c_int {
+    #[cfg(a10_verif)]
+    if let Some(table) = crate::verif::syscalls() {
+        if let Some(res) = (table.setup)(entries, p.cast()) {
+            return res;
+        }
+    }
     syscall(SYS_io_uring_setup, entries as c_long, p as c_long) as _
 }
 
@@ -14,6 +20,12 @@ pub unsafe fn io_uring_register(
     arg: *const c_void,
     nr_args: c_uint,
 ) -> c_int {
+    #[cfg(a10_verif)]
+    if let Some(table) = crate::verif::syscalls() {
+        if let Some(res) = (table.register)(fd, opcode, arg, nr_args) {
+            return res;
+        }
+    }
     syscall(
         SYS_io_uring_register,
         fd as c_long,
@@ -31,6 +43,12 @@ pub unsafe fn io_uring_enter2(
     arg: *const libc::c_void,
     size: usize,
 ) -> c_int {
+    #[cfg(a10_verif)]
+    if let Some(table) = crate::verif::syscalls() {
+        if let Some(res) = (table.enter)(fd, to_submit, min_complete, flags, arg, size) {
+            return res;
+        }
+    }
     syscall(
         SYS_io_uring_enter,
         fd as c_long,
